@@ -140,6 +140,21 @@ def insertBy (lt : α → α → Bool) (x : α) : List α → List α
   | y :: ys => if lt x y then x :: y :: ys else y :: insertBy lt x ys
 def sortBy (lt : α → α → Bool) (l : List α) : List α := l.foldl (fun acc x => insertBy lt x acc) []
 
+/-! ## dataset deletion and garbage collection (dsmanager.go, garbagecollector.go) -/
+
+/-- `DeleteDataset`: the dataset id joins the deleted set (its keys stay until GC). -/
+def markDeleted (db : DB) (d : Nat) : DB := { db with deletedDs := d :: db.deletedDs }
+
+/-- all keys of a set of datasets removed from the five key families. -/
+def eraseDs (db : DB) (dd : List Nat) : DB :=
+  { db with versions := db.versions.filter (fun v => !dd.contains v.1.ds),
+            changes := db.changes.filter (fun c => !dd.contains c.1),
+            latest := db.latest.filter (fun l => !dd.contains l.1.1),
+            refs := db.refs.filter (fun r => !dd.contains r.ds) }
+
+/-- `GarbageCollector.Cleandeleted`. -/
+def gc (db : DB) : DB := eraseDs db db.deletedDs
+
 /-! ## deduplicating compaction (internal/service/dataset/compact*.go), after the fix for D13 -/
 
 /-- the reference keys `processRefs` computes for a version (one `RefKey` stands for the outgoing
@@ -303,11 +318,12 @@ def outStep (db : DB) (scope : List Nat) (pred at_ limit : Nat) (startKey : Opti
     else if !s2.reached ∧ startKey = some k then { s2 with reached := true } else s2
 
 /-- `GetRelatedAtTime`, outgoing branch. Returns results and the continuation key (`none` = last page).
-The iterator also visits keys recorded after `at` and skips them (`et > from.At → continue`, which
-leaves the scan state untouched), so the model scans the keys of the past only, in reverse key order. -/
+The iterator also visits keys recorded after `at` and keys of deleted or out-of-scope datasets and
+skips them (`continue` before anything else, which leaves the scan state untouched), so the model
+scans the in-scope keys of the past only, in reverse key order. -/
 def relatedOut (db : DB) (src pred at_ limit : Nat) (scope : List Nat) (startKey : Option RefKey) : List QRes × Option RefKey :=
   let keys := sortBy (fun a b => lexLt b.outFields a.outFields)
-    ((db.refs.filter (fun r => decide (r.t ≤ at_))).filter (·.src == src))   -- reverse order
+    (((db.refs.filter (fun r => decide (r.t ≤ at_))).filter (fun r => inScope db scope r.ds)).filter (·.src == src))   -- reverse order
   let s := keys.foldl (outStep db scope pred at_ limit startKey) { reached := startKey.isNone }
   (s.results, if s.stopped then s.cont else none)
 
